@@ -43,7 +43,9 @@ MANIFEST = dict(
 )
 
 NEGS = [("Timing_neg_stale.cfg", "stale"), ("Timing_neg_thresh.cfg", "thresh"),
-        ("Timing_neg_early.cfg", "early"), ("Timing_neg_desched.cfg", "desched"), ("Timing_neg_noreset.cfg", "noreset")]
+        ("Timing_neg_early.cfg", "early"), ("Timing_neg_desched.cfg", "desched"), ("Timing_neg_noreset.cfg", "noreset"),
+        ("Timing_neg_nopace.cfg", "nopace"), ("Timing_neg_paceend.cfg", "paceend"),
+        ("Timing_neg_doubledraw.cfg", "doubledraw"), ("Timing_wit_backlog.cfg", "witness_backlog_next_to_on_time")]
 
 
 def prints_json(r):
@@ -58,13 +60,13 @@ def design_level(thorough, res):
     """Runs in a thread next to the real-time part; stores into res (errors are re-raised by the caller)."""
     try:
         states = trans = 0
-        cfgs = ["Timing_exh.cfg", "Timing_lazy.cfg"] + (["Timing_exh4.cfg", "Timing_lazy2.cfg", "Timing_lazy22.cfg", "Timing_exh3i.cfg"] if thorough else [])
+        cfgs = ["Timing_exh.cfg", "Timing_lazy.cfg", "Timing_pace.cfg"] + (["Timing_exh4.cfg", "Timing_lazy2.cfg", "Timing_lazy22.cfg", "Timing_exh3i.cfg", "Timing_pace25.cfg"] if thorough else [])
         per, runs = {}, {}
 
         def one(cfg):
             runs[cfg] = vlib.tlc("TimingMC", cfg, deadlock=False, timeout=3000, workers=6, heap="8g" if thorough else "4g")
         # the two large configurations of the thorough tier run next to the small ones
-        BIG = ("Timing_lazy2.cfg", "Timing_lazy22.cfg", "Timing_exh3i.cfg")
+        BIG = ("Timing_lazy2.cfg", "Timing_lazy22.cfg", "Timing_exh3i.cfg", "Timing_pace.cfg", "Timing_pace25.cfg")
         big = [threading.Thread(target=one, args=(c,)) for c in cfgs if c in BIG]
         [t.start() for t in big]
         for cfg in cfgs:
@@ -134,8 +136,12 @@ def unbounded_evidence(res):
         res["unbounded"] = out
 
 
+PACE_MW = 25   # MinWait of Timing_simpace.cfg (ticks): min_waiting_time = 2500 ms
+
+
 def scripts_from_tlc(n_walks, n_pick, first_id=1, cfg="Timing_sim.cfg"):
     lazy = cfg == "Timing_simlazy.cfg"
+    mw = PACE_MW if cfg == "Timing_simpace.cfg" else 0
     r = vlib.tlc("TimingMC", cfg, workers=1, simulate="num=%d" % n_walks, depth=3000, seed_=vlib.seed(),
                  deadlock=False, timeout=900, heap="2g")
     if r.error or r.violation:
@@ -179,11 +185,15 @@ def scripts_from_tlc(n_walks, n_pick, first_id=1, cfg="Timing_sim.cfg"):
         cases.append({"id": cid, "kind": "script", "key": key, "ninst": w["ninst"],
                       "toks": [e["tok"] for e in h], "resp": [e["r"] for e in h], "exp": [e["d"] for e in h],
                       "pa": [e["a"] - e["tok"] for e in h], "pb": [e["b"] - e["tok"] for e in h], "fin": w["fin"],
-                      "lz": [e["lz"] for e in h], "starts": sorted(w["startAt"][:w["ninst"]]),
+                      "lz": [e["lz"] for e in h], "starts": sorted(w["startAt"][:w["ninst"]]), "mw": mw,
+                      # pacing cases: every third shot is answered with 500, so the scenario's assert/response fails and
+                      # the scenario is aborted (an input dimension; the model's shot lasts max(response, MinWait) either way)
+                      "fail": [1 if mw and e["d"] == "fire" and (cid + e["k"]) % 3 == 0 else 0 for e in h],
                       "desc": "script tokens=%s resp=%s%s instances=%d discard_overflow=%s" % (
                           [e["tok"] for e in h], [e["r"] for e in h],
                           (" desched_after_next=%s" % [e["lz"] for e in h]) if lazy else "", w["ninst"], key) +
-                              (" instance_starts=%s" % w["startAt"][:w["ninst"]] if max(w["startAt"]) > 0 else "")})
+                              (" instance_starts=%s" % w["startAt"][:w["ninst"]] if max(w["startAt"]) > 0 else "") +
+                              (" REAL http/scenario gun, min_waiting_time=%d ms" % (mw * 100) if mw else "")})
     return cases, len(walks)
 
 
@@ -191,8 +201,9 @@ CANARY = 1000000
 # Synthetic runs appended to every batch: TraceTiming MUST flag exactly these rules on them, otherwise the trace
 # specification has lost its teeth (machinery failure).  They never count as verdicts about the code.
 def canary_rows():
-    t = lambda run, k, tok, a, b, d, net=0, tag="": {"ev": "tok", "run": run, "k": k, "tok": tok, "a": a, "b": b, "d": d,
-                                                     "net": net, "tag": tag, "dur": 0, "exp": "", "pa": 0, "pb": 0}
+    t = lambda run, k, tok, a, b, d, net=0, tag="", mw=0, pf=-1, dur=0, srv=0: {
+        "ev": "tok", "run": run, "k": k, "tok": tok, "a": a, "b": b, "d": d, "net": net, "tag": tag, "dur": dur,
+        "exp": "", "pa": 0, "pb": 0, "mw": mw, "pf": pf, "srv": srv, "gs": 0}
     c1, c2 = CANARY, CANARY + 1
     rows = [
         {"ev": "run", "run": c1, "kind": "canary", "key": "absent", "got": True, "ninst": 1, "desc": "canary on"},
@@ -206,12 +217,16 @@ def canary_rows():
         {"ev": "run", "run": c2, "kind": "canary", "key": "absent", "got": False, "ninst": 1, "desc": "canary off"},
         t(c2, 1, 100000, 3100000, 3100010, "discard", 777, "discarded"), # discarded-while-off
         t(c2, 2, 100000, 3100000, 3100010, "fire"),                      # fine: late but discard is off
-        {"ev": "end", "run": c2, "end": 4000000, "left": 0, "drawn": 2, "err": "", "timeout": False, "last": 100000, "orphans": 0},
+        t(c2, 3, 100000, 3100000, 3600000, "fire", mw=1000000, pf=3100010, dur=1000000),           # next-shot-before-min-wait
+        t(c2, 4, 100000, 3100000, 4700000, "fire", mw=1000000, pf=3600000, dur=999999),            # shot-shorter-than-min-wait
+        t(c2, 5, 100000, 3100000, 5800000, "fire", mw=1000000, pf=4700000, dur=4500001, srv=2500000),  # paced-longer-than-needed
+        {"ev": "end", "run": c2, "end": 4000000, "left": 0, "drawn": 5, "err": "", "timeout": False, "last": 100000, "orphans": 0},
         {"ev": "conf", "run": c2, "pool": 0, "key": "false", "got": True},
     ]
     expect = {(c1, "fired-two-seconds-late"), (c1, "discarded-inside-window"), (c1, "discard-not-marked"),
               (c1, "fired-early"), (c1, "shot-and-discarded"), (c1, "token-lost"), (c1, "run-not-bounded"),
-              (c2, "default-not-applied"), (c2, "discarded-while-off"), (c2, "not-all-fired-while-off")}
+              (c2, "default-not-applied"), (c2, "discarded-while-off"), (c2, "not-all-fired-while-off"),
+              (c2, "next-shot-before-min-wait"), (c2, "shot-shorter-than-min-wait"), (c2, "paced-longer-than-needed")}
     return rows, expect
 
 
@@ -263,7 +278,7 @@ def validate(v, trace_path, cases_by_id):
     if set(cgot) != cexpect or cgot[(CANARY, "discard-not-marked")] != 2 or cgot[(CANARY + 1, "default-not-applied")] != 2:
         raise vlib.MachineryError("TraceTiming canary: flagged %s, expected %s" % (sorted(cgot.items()), sorted(cexpect)))
     rep["runs"] -= 2
-    rep["toks"] -= 8
+    rep["toks"] -= 11
     rep["canary"] = sum(cgot.values())
     rows = rows[:-len(crow)]
     if machinery and not v.violations:
@@ -284,12 +299,13 @@ def run(tier, v):
     try:
         d = vlib.scratch("c04-timing-")
         n_scripts, n_gap, n_lazy, n_random, n_walks, n_confs = (140, 60, 100, 160, 3000, 60) if thorough else (20, 8, 10, 28, 800, 12)
+        n_pace = 40 if thorough else 6
         # script families (generated in parallel; ids are disjoint ranges):
         #   sim     prompt machine, 8 tokens            sim12  (thorough) 12 tokens, up to 11 s
         #   simgap  bursts separated by a pause longer than the window: a waiter that was behind has to sleep again
         #   simlazy descheduling of 3/6 ticks between Next() and the Waiter's clock reading (injected by the harness)
         fams = [("Timing_sim.cfg", n_scripts, 1)] + ([("Timing_sim12.cfg", 60, 2001)] if thorough else []) + \
-               [("Timing_simgap.cfg", n_gap, 4001), ("Timing_simlazy.cfg", n_lazy, 6001)]
+               [("Timing_simgap.cfg", n_gap, 4001), ("Timing_simlazy.cfg", n_lazy, 6001), ("Timing_simpace.cfg", n_pace, 8001)]
         got = {}
 
         def gen(cfg, n, first):
